@@ -26,5 +26,23 @@ for mod in [2, 251, 256, 257, 65521, 65536, 16777259]:
                           bound="modulus %d, byte order %s, input length %d, arbitrary content" % (mod, ["big", "little"][bo], ln),
                           tiers=(["quick", "thorough"] if mod in (251, 256, 65521) else ["thorough"]),
                           mutants=[dict(id="C04b", file="group/mod/int.go", old="\tif i.V.Cmp(compatible.FromCompatibleMod(i.M)) >= 0 {", new="\tif i.V.Cmp(compatible.FromCompatibleMod(i.M)) > 0 {")] if (mod == 251 and ln == size) else []))
+EP = "go.dedis.ch/kyber/v4/group/edwards25519."
+ed_contracts = {EP + k: dict(writes=[0], havoc=True) for k in ["feMul", "feSquare", "feSquare2", "feAdd", "feSub", "feNeg", "feCopy", "feCMove", "feFromBytes"]}
+ed_contracts[EP + "feToBytes"] = dict(writes=[0, 1], havoc=True)
+for n in [0, 1, 31, 33, 64]:
+    H.append(dict(name="ed25519.point.UnmarshalBinary-len%d" % n, pkg="./group/edwards25519", files=["harness/C04/ed.go"], entry="HarnessEdUnmarshalLen", mode="bv", params={"p0": n}, contracts=ed_contracts,
+                  replay_entry="HarnessEdUnmarshalLenReplay", unwind=400,
+                  stubs=["field kernels -> writes only its output parameter, arbitrary value (only the length guard and the control flow are the subject)"],
+                  functions=["edwards25519.(*point).UnmarshalBinary", "edwards25519.(*extendedGroupElement).FromBytes"], bound="input length %d, arbitrary content" % n,
+                  mutants=[dict(id="C04c", file="group/edwards25519/ge.go", old="\tif len(s) != 32 {\n\t\treturn false\n\t}\n\tfeFromBytes(&p.Y, s)", new="\tif len(s) < 32 {\n\t\treturn false\n\t}\n\tfeFromBytes(&p.Y, s)")] if n == 33 else []))
+BP = "go.dedis.ch/kyber/v4/pairing/bn256."
+bn_contracts = {BP + k: dict(writes=[0], havoc=True) for k in ["gfpMul", "gfpAdd", "gfpSub", "gfpNeg"]}
+for n in [0, 1, 63, 64, 65, 128]:
+    H.append(dict(name="bn256.G1.UnmarshalBinary-len%d" % n, pkg="./pairing/bn256", files=["harness/C04/bn.go"], entry="HarnessBNUnmarshalG1", mode="bv", params={"p0": n},
+                  renames={"(*" + BP + "curvePoint).IsOnCurve": "bnStubIsOnCurve"}, contracts=bn_contracts, replay_entry="HarnessBNUnmarshalG1Replay", unwind=100,
+                  stubs=["(*curvePoint).IsOnCurve -> recording stub with an arbitrary verdict", "gfpMul/gfpAdd/gfpSub/gfpNeg (assembly) -> writes only its output parameter, arbitrary value"],
+                  functions=["bn256.(*pointG1).UnmarshalBinary", "bn256.(*gfP).Unmarshal", "bn256.montEncode", "bn256.newGFp"], bound="input length %d, arbitrary content" % n,
+                  tiers=(["quick", "thorough"] if n in (0, 63, 64, 65) else ["thorough"]),
+                  mutants=[dict(id="C04a", file="pairing/bn256/point.go", old="\tif !p.g.IsOnCurve() {\n\t\treturn errors.New(\"bn256.G1: malformed point\")\n\t}", new="\t_ = errors.New")] if n == 64 else []))
 json.dump(dict(property="C04", harnesses=H), open(os.path.join(os.path.dirname(__file__), "..", "specs", "C04.json"), "w"), indent=1)
 print(len(H))
